@@ -34,12 +34,22 @@ def pf_texts(rng, names, per):
 def expr_texts(rng, n):
     ops = ["+", "-", "*", "/", "^", "mod", "div", "round", "=", "<", ">", "<=", ">=", "!=", "<>", "and", "or", "not", "e", "(",
            ")", "ceil", "floor", "trunc", "abs", "sqrt", "ln", "exp", "sin", "cos", "tan", "asin", "acos", "atan", "pi", ".",
-           "1", "0", "2", "9999", "0.5", "-", "1e400", "3"]
+           "1", "0", "2", "9999", "0.5", "-", "1e400", "3", "99999999", "308", "309", "1e-400"]
     out = []
     for _ in range(n):
         toks = [rng.choice(ops) for _ in range(rng.randint(1, 7))]
         out.append(("#expr", "{{#expr: " + " ".join(toks) + "}}"))
     return out
+
+
+# minimised earlier failures: always run (first in the batch)
+PF_CORPUS = [
+    ("#pad", "{{padleft:a|99999999999999999999|(}}"), ("#pad", "{{padright:a|99999999999999999999|(}}"),
+    ("#expr", "{{#expr: 3 e 9999}}"), ("#expr", "{{#expr: 3 e 99999999}}"), ("#expr", "{{#expr: 0 e -99999999}}"),
+    ("#expr", "{{#expr: " + " * ".join(["1 e 308"] * 15) + "}}"), ("#expr", "{{#expr: 1/0}}"), ("#expr", "{{#expr: ln 0}}"),
+    ("#expr", "{{#expr: 2 ^ 99999999}}"), ("#expr", "{{#expr: exp 1000}}"), ("#rel2abs", "{{#rel2abs:}}"),
+    ("#invoke", "{{#invoke:}}"), ("TALKSPACE", "{{TALKSPACE}}"), ("TALKPAGENAME", "{{TALKPAGENAME}}"),
+]
 
 
 def classify_exc(fn, r):
@@ -157,7 +167,7 @@ def run(run):
     # ---- (b)(c) parser functions
     from wikitextprocessor.parserfns import PARSER_FUNCTIONS
     names = sorted(PARSER_FUNCTIONS)
-    calls = pf_texts(rng, names, 2 if quick else 12) + expr_texts(rng, 600 if quick else 20000)
+    calls = PF_CORPUS + pf_texts(rng, names, 2 if quick else 12) + expr_texts(rng, 600 if quick else 20000)
     by_title = {}
     for i, (fn, t) in enumerate(calls):
         by_title.setdefault(TITLES[i % len(TITLES)], []).append((fn, t))
